@@ -131,6 +131,7 @@ Definition one_msg (r : role) (l : list N) : hdr :=
 Inductive paykind := KPiece | KExt | KBits.
 Inductive rmode := RIdle | RPay (k : paykind) (lft : N) | RClosed.
 
+Definition is_idle (m : rmode) : bool := match m with RIdle => true | _ => false end.
 Definition pay_done (k : paykind) : msg :=
   match k with KPiece => MPieceDone | KExt => MExtDone | KBits => MBitsDone end.
 
@@ -384,8 +385,9 @@ Definition run (h : HS) (pre : list N) (segs : list (list N)) : mres :=
   end.
 
 (* ---- PeerConnectionMetadata::event_read ---------------------------------------------------- *)
-(* IDLE: fill to 512 (no return on a 0-byte read), parse, loop only if the buffer was filled to
-   512; READ_SKIP_PIECE (= discarding a bitfield): read_skip_bitfield first eats from the buffer,
+(* IDLE: fill to 512 (no return on a 0-byte read), parse, loop if the buffer was filled to 512
+   or the parse left the IDLE state (commit 37af099; before it only the first condition, so a
+   BITFIELD and everything buffered behind it waited for the next readable event); READ_SKIP_PIECE (= discarding a bitfield): read_skip_bitfield first eats from the buffer,
    then does one recv; READ_EXTENSION as in PeerConnection<>. *)
 Fixpoint ev_meta (fuel : nat) (s : mst) (avail : list N) : mres :=
   match fuel with
@@ -415,12 +417,12 @@ Fixpoint ev_meta (fuel : nat) (s : mst) (avail : list N) : mres :=
           | POut => MOut
           | PRes h2 m2 b2 es2 =>
             let s2 := mk_mst h2 m2 b2 (S c1) in
-            if (send =? bufsz)%nat then mapp (es1 ++ es2) (ev_meta f s2 avail2)
+            if (send =? bufsz)%nat || negb (is_idle m2) then mapp (es1 ++ es2) (ev_meta f s2 avail2)
             else MRet s2 avail2 (es1 ++ es2)
           end
         | _ =>
           let s1 := mk_mst h1 m1 b1 (S (m_cnt s)) in
-          if (send =? bufsz)%nat then mapp es1 (ev_meta f s1 avail1) else MRet s1 avail1 es1
+          if (send =? bufsz)%nat || negb (is_idle m1) then mapp es1 (ev_meta f s1 avail1) else MRet s1 avail1 es1
         end
       end
     | RPay k lft =>
@@ -511,6 +513,65 @@ Arguments m_h {HS}.
 Arguments m_mode {HS}.
 Arguments m_buf {HS}.
 Arguments m_cnt {HS}.
+
+(* ======== independent BEP 3 / BEP 10 encoder (reference framing for decode_spec) ========= *)
+Inductive wmsg :=
+| WKeepAlive | WChoke | WUnchoke | WInterested | WNotInterested
+| WHave (i : N) | WRequest (i o l : N) | WCancel (i o l : N) | WPort (p : N)
+| WPiece (i o : N) (data : list N)
+| WExt (ty : N) (data : list N)
+| WBitfield (data : list N).
+
+Definition b3 (v : N) : N := (v / 16777216) mod 256.
+Definition b2 (v : N) : N := (v / 65536) mod 256.
+Definition b1 (v : N) : N := (v / 256) mod 256.
+Definition b0 (v : N) : N := v mod 256.
+Definition be32 (v : N) : list N := [b3 v; b2 v; b1 v; b0 v].
+Definition lenN (l : list N) : N := N.of_nat (length l).
+
+(* <length prefix = 1 + payload length> <id> <payload>; keep-alive = a zero length prefix *)
+Definition enc_msg (m : wmsg) : list N :=
+  match m with
+  | WKeepAlive => be32 0
+  | WChoke => be32 1 ++ [0]
+  | WUnchoke => be32 1 ++ [1]
+  | WInterested => be32 1 ++ [2]
+  | WNotInterested => be32 1 ++ [3]
+  | WHave i => be32 5 ++ 4 :: be32 i
+  | WRequest i o l => be32 13 ++ 6 :: be32 i ++ be32 o ++ be32 l
+  | WCancel i o l => be32 13 ++ 8 :: be32 i ++ be32 o ++ be32 l
+  | WPort p => be32 3 ++ 9 :: [b1 p; b0 p]
+  | WPiece i o d => be32 (9 + lenN d) ++ 7 :: be32 i ++ be32 o ++ d
+  | WExt ty d => be32 (2 + lenN d) ++ 20 :: ty :: d
+  | WBitfield d => be32 (1 + lenN d) ++ 5 :: d
+  end.
+
+Definition encode_msgs (ms : list wmsg) : list N := concat (map enc_msg ms).
+
+(* what the decoder is expected to report for one wire message *)
+Definition denotes (m : wmsg) : list msg :=
+  match m with
+  | WKeepAlive => [MKeepAlive] | WChoke => [MChoke] | WUnchoke => [MUnchoke]
+  | WInterested => [MInterested] | WNotInterested => [MNotInterested]
+  | WHave i => [MHave i] | WRequest i o l => [MRequest i o l] | WCancel i o l => [MCancel i o l]
+  | WPort p => [MPort p]
+  | WPiece i o d => [MPiece i o (lenN d); MPieceDone]
+  | WExt ty d => [MExt ty (lenN d); MExtDone]
+  | WBitfield d => [MBitfield (lenN d); MBitsDone]
+  end.
+
+(* well-formed for a connection role and within the limits of the read side *)
+Definition u32 (v : N) : Prop := v < 4294967296.
+Definition wf_wmsg (r : role) (m : wmsg) : Prop :=
+  match m with
+  | WHave i => u32 i
+  | WRequest i o l | WCancel i o l => u32 i /\ u32 o /\ u32 l
+  | WPort p => p < 65536
+  | WPiece i o d => r = Leech /\ u32 i /\ u32 o /\ 9 + lenN d <= 1048576
+  | WExt ty d => ty < 3 /\ lenN d <= 32768
+  | WBitfield d => r = Meta /\ 1 + lenN d <= 1048576
+  | _ => True
+  end.
 
 (* ======== concrete handler used by the correspondence run ================================ *)
 (* What the decoded messages do to the observable connection state while the write side is
